@@ -79,8 +79,27 @@ func (r *Run) flateClose(c *frame, fw *flateW) Value {
 		return Iface{}
 	}
 	fw.closed = true
-	if len(fw.dict) > 255 || len(fw.data) > 255 {
-		panic(unsupported("flate stub: more than 255 bytes"))
+	if run, ok := flateRun(fw.data); ok && len(fw.dict) <= 254 {
+		// A long run of one byte value: the frame is as short as DEFLATE permits. One length-258
+		// match costs at least two bits (one for the length symbol, one for the distance symbol), so
+		// n bytes need at least n/1032 bytes; the stub adds the seven bytes of its own header.
+		// frame: [0xFF dictLen dict... value n(4, big endian) padding...]
+		n := len(fw.data)
+		var frame []Value
+		frame = append(frame, mkBV(8, 0xFF), mkBV(8, uint64(len(fw.dict))))
+		frame = append(frame, fw.dict...)
+		frame = append(frame, run, mkBV(8, uint64(n>>24)&0xFF), mkBV(8, uint64(n>>16)&0xFF), mkBV(8, uint64(n>>8)&0xFF), mkBV(8, uint64(n)&0xFF))
+		for i := 0; i < (n+1031)/1032; i++ {
+			frame = append(frame, mkBV(8, 0))
+		}
+		res := r.invokeIface(c, fw.w, "Write", Slice{S: frame})
+		if t, ok := res.(Tuple); ok {
+			return t[1]
+		}
+		return Iface{}
+	}
+	if len(fw.dict) > 254 || len(fw.data) > 255 {
+		panic(unsupported("flate stub: more than 255 bytes that are not a run of one value"))
 	}
 	var frame []Value
 	frame = append(frame, mkBV(8, uint64(len(fw.dict))))
@@ -103,7 +122,7 @@ func (r *Run) flateRead(c *frame, fr *flateR, dst Slice) Value {
 		for i := range buf {
 			buf[i] = mkBV(8, 0)
 		}
-		for round := 0; round < 64; round++ {
+		for round := 0; round < 4096; round++ {
 			res := r.invokeIface(c, fr.r, "Read", Slice{S: buf}).(Tuple)
 			n := int(r.concInt(res[0], "flate stub read"))
 			all = append(all, cloneVals(buf[:n])...)
@@ -116,7 +135,36 @@ func (r *Run) flateRead(c *frame, fr *flateR, dst Slice) Value {
 		}
 		// parse the frame: [dictLen dict... dataLen data...]
 		ok := len(all) >= 2
-		if ok {
+		if h := all0Const(all); ok && h == 0xFF {
+			// run frame (see flateClose)
+			ok = false
+			if dl, isT := all[1].(*Term); isT && dl.Const && len(all) >= 7+int(dl.V) {
+				dict := all[2 : 2+int(dl.V)]
+				rest := all[2+int(dl.V):]
+				n, cok := 0, true
+				for _, b := range rest[1:5] {
+					t, isT := b.(*Term)
+					if !isT || !t.Const {
+						cok = false
+						break
+					}
+					n = n<<8 | int(t.V)
+				}
+				if cok && len(rest) == 5+(n+1031)/1032 && len(dict) == len(fr.dict) {
+					same := tTrue
+					for i := range dict {
+						same = tAnd(same, tEq(dict[i].(*Term), fr.dict[i].(*Term)))
+					}
+					if r.branch(same) {
+						fr.data = make([]Value, n)
+						for i := range fr.data {
+							fr.data[i] = rest[0]
+						}
+						ok = true
+					}
+				}
+			}
+		} else if ok {
 			dl := all[0].(*Term)
 			if !dl.Const || int(dl.V)+2 > len(all) {
 				ok = false
@@ -152,6 +200,34 @@ func (r *Run) flateRead(c *frame, fr *flateR, dst Slice) Value {
 	n := copy(dst.S, fr.data[fr.pos:])
 	fr.pos += n
 	return Tuple{mkBV(64, uint64(n)), Iface{}}
+}
+
+// flateRun reports whether data is a long run of one concrete byte value.
+func flateRun(data []Value) (Value, bool) {
+	if len(data) < 1024 {
+		return nil, false
+	}
+	first, ok := data[0].(*Term)
+	if !ok || !first.Const {
+		return nil, false
+	}
+	for _, v := range data[1:] {
+		t, ok := v.(*Term)
+		if !ok || !t.Const || t.V != first.V {
+			return nil, false
+		}
+	}
+	return first, true
+}
+
+func all0Const(all []Value) uint64 {
+	if len(all) == 0 {
+		return 0
+	}
+	if t, ok := all[0].(*Term); ok && t.Const {
+		return t.V
+	}
+	return 0
 }
 
 func (r *Run) ioEOF() Value {
